@@ -181,10 +181,6 @@ MODULES = ['earth', 'error_model', 'filters', 'inertial_sensor', 'kalman', 'meas
            'sim', 'strapdown', 'transform', 'util']
 EXTRA = ['transform.ecef_to_lla']          # public-looking, but not in the autosummary
 
-# If the lead decides that the recorded findings (see FINDING_* below) are to be shown as
-# violations (with a ``key`` so that known_findings.txt can match them) set this to True.
-REPORT_FINDINGS_AS_VIOLATIONS = False
-
 # ---------------------------------------------------------------------------------------
 # Documented schema: literal copy of pyins/__init__.py:3-31 and of the function docstrings.
 DOC_LLA = ['lat', 'lon', 'alt']
@@ -1583,9 +1579,6 @@ def b_measurements(D):
 
 # ---------------------------------------------------------------------------------------
 # 9. builders: sim, strapdown
-FINDING_GENERATE_IMU_TIME_LIST = 'generate_imu-time-list'
-
-
 @builder('sim.generate_imu', 'sim.generate_sine_velocity_motion')
 def b_sim_motion(D):
     sim = P().sim
@@ -1595,13 +1588,15 @@ def b_sim_motion(D):
         for opt in ('lla+vel', 'lla', 'lla0+vel'):
             kinds = ['ndarray', 'fortran', 'strided', 'list', 'tuple', 'pandas']
             for kind in kinds:
-                for tk in (('ndarray', 'index', 'list') if kind == 'ndarray' else ('ndarray',)):
+                for tk in (('ndarray', 'index', 'list', 'tuple') if kind == 'ndarray' else
+                           ('list',) if kind == 'list' else ('tuple',) if kind == 'tuple' else ('ndarray',)):
                     def build(D_, st=st, opt=opt, kind=kind, tk=tk):
                         tr = D.traj_att().iloc[:60]
                         tm = tr.index.to_numpy().copy()
                         c = lambda v, cols: conv(v, kind, cols, tr.index) if conv(v, kind, cols, tr.index) \
                             is not NA else conv(v, 'ndarray')
-                        time_ = tm if tk == 'ndarray' else pd.Index(tm) if tk == 'index' else tm.tolist()
+                        time_ = tm if tk == 'ndarray' else pd.Index(tm) if tk == 'index' else \
+                            tm.tolist() if tk == 'list' else tuple(tm.tolist())
                         lla = c(tr[DOC_LLA].to_numpy(), DOC_LLA) if opt != 'lla0+vel' \
                             else c(tr[DOC_LLA].to_numpy()[0], DOC_LLA)
                         rph = c(tr[DOC_RPH].to_numpy(), DOC_RPH)
@@ -1611,9 +1606,7 @@ def b_sim_motion(D):
                     out.append(Case(nm, f"{kind},time={tk},{opt},{st}", build, group=f"{nm}|{opt}|{st}",
                                     schema=lambda res, ctx: sch_traj_imu(res, np.asarray(ctx.watch['time']),
                                                                          ctx.info['n']),
-                                    tol=1e-9, scale=1.0,
-                                    finding=(FINDING_GENERATE_IMU_TIME_LIST
-                                             if tk == 'list' else None)))
+                                    tol=1e-9, scale=1.0))
     nm = 'sim.generate_sine_velocity_motion'
     for st in ('rate', 'increment'):
         for kind in ('list', 'tuple', 'ndarray', 'strided', 'pandas'):
@@ -1625,8 +1618,7 @@ def b_sim_motion(D):
                     a = dict(lla0=c(D.lla0, DOC_LLA), velocity_mean=c(D.vmean, DOC_VEL),
                              velocity_change_amplitude=(c(D.vamp, DOC_VEL) if amp == 'vector' else
                                                         c(0.75) if kind == 'ndarray' else 0.75),
-                             velocity_change_phase_offset=(c([10.0, 80.0, 30.0]) if kind != 'pandas'
-                                                           else [10.0, 80.0, 30.0]))
+                             velocity_change_phase_offset=c([10.0, 80.0, 30.0]))
                     n = len(np.arange(0, 12.0, D.dt))
                     return Ctx(a, lambda: sim.generate_sine_velocity_motion(
                         D.dt, 12.0, a['lla0'], a['velocity_mean'], a['velocity_change_amplitude'],
@@ -2112,6 +2104,11 @@ class Runner:
         if 'read-only' in msg or 'read only' in msg:
             self.fail(case.name, case.form, 'mutation',
                       f"attempted in-place write to caller's data ({msg})", D)
+        elif case.group and case.group in self.group_ref and self.group_ref[case.group][0] != case.form:
+            # the same input in the reference form is accepted: this documented form is not
+            self.fail(case.name, case.form, 'forms',
+                      f"documented argument form raises {msg} while form <{self.group_ref[case.group][0]}> "
+                      f"of the same input succeeds", D)
         else:
             self.broken(f"{case.name} <{case.form}>", c['tb'])
 
@@ -2150,15 +2147,6 @@ class Runner:
                             f"documented {case.expect_exc.__name__} not raised: {c1['exc']!r}")
             return
         if c1['exc'] is not None:
-            if case.finding:
-                f = dict(key=case.finding, callable=case.name, form=case.form,
-                         what=f"{type(c1['exc']).__name__}: {c1['exc']}")
-                if not any(g['key'] == f['key'] and g['callable'] == f['callable'] for g in self.findings):
-                    self.findings.append(f)
-                    if REPORT_FINDINGS_AS_VIOLATIONS:
-                        self.fail(case.name, case.form, 'forms', f"documented form raises {f['what']}", D,
-                                  extra=dict(key=case.finding))
-                return
             self.handle_exception(case, c1, D)
             return
         # global generator
